@@ -106,8 +106,15 @@ func runC08(c *core.Ctx) {
 		}
 		return true
 	}
+	var keptStr, keptStrCopy string // a String() result kept from an earlier call, and a private copy of its bytes
 	checkString = func(op string, arr arrays.Array2D[int], gg *grid) bool {
 		st := arr.String()
+		// strings are immutable: what an earlier String() call returned must still read the same
+		if keptStr != keptStrCopy {
+			fail(op+":String-result-changed", fmt.Sprintf("a string returned by an earlier String() call read %q then and reads %q now", keptStrCopy, keptStr))
+			return false
+		}
+		keptStr, keptStrCopy = st, string(append([]byte(nil), st...))
 		groups, toks, ok := parse2D(st)
 		if !ok {
 			fail(op+":String-format", fmt.Sprintf("after %s cannot parse String() %q", op, st))
